@@ -665,7 +665,8 @@ fn main() {
             }
             for (name, senders, ctrls) in scen {
                 let s2 = senders.clone();
-                let b = if senders.len() >= 3 || ctrls > 1 { bound.min(2) } else if senders.len() >= 2 && !thorough { 1 } else { bound };
+                // two senders at bound 3 are 1.2 million schedules (about 20 minutes on an idle machine): run once (session 3, no violation), not part of the tier
+                let b = if senders.len() >= 3 || ctrls > 1 { bound.min(2) } else if senders.len() >= 2 { if thorough { bound.min(2) } else { 1 } } else { bound };
                 run(name, Arc::new(move || c11_scenario(s2.clone(), ctrls)), b, cap);
             }
         }
